@@ -665,6 +665,10 @@ def frombuffer(buf, dtype=float, count=-1, offset=0, **k):
 def asarray(a, dtype=None, *args, **k):
     """np.asarray of float64 data to a float type hands back the SAME array (no copy): writes through the result reach the
     original.  Object arrays holding proxies stand for float64 data."""
+    if getattr(dtype, '__name__', '') == 'sym_float':
+        dtype = float           # a harness shimmed `float` in the calling module
+    if getattr(dtype, '__name__', '') == 'kint':
+        dtype = int
     if isinstance(a, _np.ndarray) and a.dtype == object and _has_sym(a) and (dtype is None or _floaty(dtype)):
         return a if isinstance(a, SymNd) else as_symnd(a)
     return as_symnd(_np.asarray(a, dtype, *args, **k)) if dtype is not None else as_symnd(_np.asarray(a, *args, **k))
